@@ -66,7 +66,7 @@ partial def nodeOf (j : Json) : Except String N := do
         | .ok (.str "*") => pure EIdx.glob
         | .ok .null => pure EIdx.none
         | .ok v => match v.getInt? with
-            | .ok n => pure (EIdx.int n)
+            | .ok n => pure (EIdx.int (toString n).toList)
             | .error e => throw e
         | .error _ => pure EIdx.none
       let ekey ← optPathOf j "ek"
